@@ -164,6 +164,15 @@ def _extract_omega_delta_phi(
     return omega_c, delta_c, phi_c
 
 
+def _as_2d_interaction_matrix(matrix: torch.Tensor) -> torch.Tensor:
+    """
+    From pulser-core 1.9 on, interaction matrices are stacked in a tensor of shape
+    (1, N, N) for ising and (2, N, N) for XY, the leading one being the interaction
+    (C6 resp. C3) emulated here. Earlier versions give the (N, N) matrix directly.
+    """
+    return matrix[0] if matrix.dim() == 3 else matrix
+
+
 class _InteractionMatrixCallable:
     """
     Callable wrapper returning the SLM-masked or full interaction matrix
@@ -264,11 +273,13 @@ class PulserData:
 
         self.full_interaction_matrix = None
         if config.interaction_matrix is not None:
-            assert len(config.interaction_matrix) == self.qubit_count, (
+            self.full_interaction_matrix = _as_2d_interaction_matrix(
+                config.interaction_matrix.as_tensor()
+            )
+            assert len(self.full_interaction_matrix) == self.qubit_count, (
                 "The number of qubits in the register should be the same as the size of "
                 "the interaction matrix"
             )
-            self.full_interaction_matrix = config.interaction_matrix.as_tensor()
 
         self.interaction_cutoff = config.interaction_cutoff
         self.slm_end_time = (
@@ -280,7 +291,9 @@ class PulserData:
             full_interaction_matrix = (
                 self.full_interaction_matrix
                 if self.full_interaction_matrix is not None
-                else samples.trajectory.interaction_matrix.as_tensor()
+                else _as_2d_interaction_matrix(
+                    samples.trajectory.interaction_matrix.as_tensor()
+                )
             )
 
             full_interaction_matrix = full_interaction_matrix.clone()
